@@ -43,30 +43,48 @@ def case_key(c):
     return (c["d"], tuple(c["raw"]), c["start"])
 
 
-def run_mc(v, universe, invariants, lenbonus=0, label=None, timeout=3000, nparts=8):
-    """TLC over the universe, split over `nparts` TLC processes by declaration index (a forest of tiny
-    trees over large state values scales badly over TLC worker threads, well over processes)."""
+def run_mc_waves(v, universe, invariants, lenbonus=0, label=None, timeout=6000, nparts=8, width=8):
+    """TLC over the universe, split over `nparts` TLC processes by declaration index (a forest of tiny trees over
+    large state values scales badly over TLC worker threads, well over processes), `width` of them at a time.
+    Yields one merged TLCResult per wave, so that the exported behaviours of a large profile never sit in
+    memory all at once."""
     from concurrent.futures import ThreadPoolExecutor
-    with ThreadPoolExecutor(nparts) as ex:
-        futs = [ex.submit(run_tlc, "MC_Packet", cfg_text=mc_cfg(universe, invariants, lenbonus, True, k, nparts),
-                          timeout=timeout, workers=2, heap="3g") for k in range(nparts)]
-        parts = [f.result() for f in futs]
-    res = parts[0]
-    for r in parts[1:]:
-        if r.violation and not res.violation:
-            res.violation = r.violation
-        res.generated += r.generated
-        res.distinct += r.distinct
-        res.emits.extend(r.emits)
-        res.wall_s = max(res.wall_s, r.wall_s)
-        res.depth = max(res.depth, r.depth)
-    res.cmd += "   (x%d processes, Part=0..%d)" % (nparts, nparts - 1)
-    if res.violation:
-        raise common.MachineryFailure("the specification violates %s on its own model (universe %s):\n%s" % (
-            res.violation["name"], universe, res.violation["trace_text"][-3000:]))
-    if not res.emits or res.univ is None:
+    univ = None
+    total = None
+    for w0 in range(0, nparts, width):
+        ks = list(range(w0, min(nparts, w0 + width)))
+        with ThreadPoolExecutor(len(ks)) as ex:
+            futs = [ex.submit(run_tlc, "MC_Packet", cfg_text=mc_cfg(universe, invariants, lenbonus, True, k, nparts),
+                              timeout=timeout, workers=2, heap="3g") for k in ks]
+            parts = [f.result() for f in futs]
+        res = parts[0]
+        for r in parts[1:]:
+            if r.violation and not res.violation:
+                res.violation = r.violation
+            res.generated += r.generated
+            res.distinct += r.distinct
+            res.emits.extend(r.emits)
+            res.wall_s = max(res.wall_s, r.wall_s)
+            res.depth = max(res.depth, r.depth)
+            res.univ = res.univ or r.univ
+        res.cmd += "   (processes Part=%d..%d of %d)" % (ks[0], ks[-1], nparts)
+        if res.violation:
+            raise common.MachineryFailure("the specification violates %s on its own model (universe %s):\n%s" % (
+                res.violation["name"], universe, res.violation["trace_text"][-3000:]))
+        univ = univ or res.univ
+        res.univ = univ
+        if univ is None:
+            raise common.MachineryFailure("profile %s: the universe was not exported" % universe)
+        v.add_tlc(res, (label or ("MC_Packet U=%s LenBonus=%d" % (universe, lenbonus))) + " [wave %d/%d]" % (w0 // width + 1, (nparts + width - 1) // width))
+        yield res
+
+
+def run_mc(v, universe, invariants, lenbonus=0, label=None, timeout=3000, nparts=8):
+    res = None
+    for r in run_mc_waves(v, universe, invariants, lenbonus, label, timeout, nparts, nparts):
+        res = r
+    if not res.emits:
         raise common.MachineryFailure("profile %s emitted no behaviour" % universe)
-    v.add_tlc(res, label or ("MC_Packet U=%s LenBonus=%d" % (universe, lenbonus)))
     return res
 
 
@@ -151,33 +169,42 @@ def decide(v, judged, owned):
         v.cov["model_drift_not_owned"][n] = v.cov["model_drift_not_owned"].get(n, 0) + c
 
 
-def exhaustive_part(v, universe, invariants, gens, owned, lenbonus=0, opts=None, c01=True, max_judge=400):
-    res = run_mc(v, universe, invariants, lenbonus)
-    univ = res.univ
-    n, mism = rp.replay_all(univ, res.emits, gens, dict(opts or {}, c01=c01))
-    v.cov["traces_validated_against_impl"] += n
-    v.cov["replay_runs"] = v.cov.get("replay_runs", 0) + n
-    for c in res.emits:
-        nontriv = len(c["u"]["evs"]) >= 2 or len(c["u"]["reads"]) >= 2
-        v.count_case((universe, c["d"], tuple(c["raw"]), c["start"]), nontrivial=nontriv)
-    for c in res.emits[:: max(1, len(res.emits) // 3)][:3]:
-        v.sample({"direction": "spec->code", "universe": universe, "declaration": univ[c["d"] - 1]["prog"],
-                  "raw": c["raw"], "start": c["start"], "spec_unpack": c["u"]["st"],
-                  "spec_values": c["u"]["result"], "spec_pack": c["p"].get("out")})
-    harness = [m for m in mism if "harness" in m["clauses"]]
-    if harness:
-        raise common.MachineryFailure("replay harness exception: " + harness[0]["detail"])
-    # executions differing from the specification -> TLC judges the RECORDED observations
-    v.cov["executions_differing_from_spec"] = v.cov.get("executions_differing_from_spec", 0) + len(mism)
-    mism.sort(key=lambda m: 0 if any(c in owned for c in m["clauses"]) else 1)
-    todo = mism[:max_judge]
-    if todo:
-        extra = [(m["rec"], {"d": m["d"], "gen": m["gen"], "extra": m["extra"]}) for m in todo]
-        judged = judge_cases(v, univ, [], gens, owned,
-                             "Trace_Packet on %d recorded executions differing from the specification (%s)" % (len(todo), universe),
-                             c01=c01, extra_records=extra)
-        decide(v, judged, owned)
-    return res
+def exhaustive_part(v, universe, invariants, gens, owned, lenbonus=0, opts=None, c01=True, max_judge=400, nparts=8):
+    total_emits = 0
+    last = None
+    for res in run_mc_waves(v, universe, invariants, lenbonus, nparts=nparts):
+        last = res
+        univ = res.univ
+        total_emits += len(res.emits)
+        n, mism = rp.replay_all(univ, res.emits, gens, dict(opts or {}, c01=c01))
+        v.cov["traces_validated_against_impl"] += n
+        v.cov["replay_runs"] = v.cov.get("replay_runs", 0) + n
+        for c in res.emits:
+            nontriv = len(c["u"]["evs"]) >= 2 or len(c["u"]["reads"]) >= 2
+            v.count_case((universe, c["d"], tuple(c["raw"]), c["start"]), nontrivial=nontriv)
+        for c in res.emits[:: max(1, len(res.emits) // 3)][:3]:
+            v.sample({"direction": "spec->code", "universe": universe, "declaration": univ[c["d"] - 1]["prog"],
+                      "raw": c["raw"], "start": c["start"], "spec_unpack": c["u"]["st"],
+                      "spec_values": c["u"]["result"], "spec_pack": c["p"].get("out")})
+        res.emits = []
+        harness = [m for m in mism if "harness" in m["clauses"]]
+        if harness:
+            raise common.MachineryFailure("replay harness exception: " + harness[0]["detail"])
+        # executions differing from the specification -> TLC judges the RECORDED observations
+        v.cov["executions_differing_from_spec"] = v.cov.get("executions_differing_from_spec", 0) + len(mism)
+        mism.sort(key=lambda m: 0 if any(c in owned for c in m["clauses"]) else 1)
+        todo = mism[:max_judge]
+        if todo:
+            extra = [(m["rec"], {"d": m["d"], "gen": m["gen"], "extra": m["extra"]}) for m in todo]
+            judged = judge_cases(v, univ, [], gens, owned,
+                                 "Trace_Packet on %d recorded executions differing from the specification (%s)" % (len(todo), universe),
+                                 c01=c01, extra_records=extra)
+            decide(v, judged, owned)
+        if len(v.violations) >= 50:
+            break
+    if total_emits == 0:
+        raise common.MachineryFailure("profile %s emitted no behaviour" % universe)
+    return last
 
 
 def random_part(v, seed, n, gens, owned, profile, c01=True):
